@@ -95,6 +95,13 @@ func genCase(r *hx.Rand, big bool) *Case {
 	// FIRST result has no file configuration at all (the projection has no field yet when the first
 	// key is made); later blocks bring goos:/goarch:/... lines
 	cfgOnlyMode := !holesMode && !collideMode && !clearMode && r.Chance(1, 8)
+	// "scales" mode: >= 3 columns whose centres in one row have different magnitudes (different
+	// SI/IEC prefixes) and zeros, so that the row's common scale matters
+	scalesMode := !holesMode && !collideMode && !clearMode && !cfgOnlyMode && r.Chance(1, 10)
+	if scalesMode {
+		nfiles = 3 + r.Intn(2)
+		c.tag("scales")
+	}
 	// "specials" mode: +Inf, -Inf and -0 among the measurements; "nan" mode: also NaN, but only
 	// in single-column runs (one file, no -col, no duplicate path): two compared cells with a NaN
 	// make go-moremath's U test loop forever (reported, see notes/C14.md)
@@ -186,6 +193,16 @@ func genCase(r *hx.Rand, big bool) *Case {
 		}
 	}
 	fileNames := []string{"a.txt", "b.txt", "c.txt", "d.txt"}
+	scaleMag := map[string]float64{}
+	if scalesMode {
+		for _, n := range names {
+			for _, u := range units {
+				for fi := 0; fi < nfiles; fi++ {
+					scaleMag[fmt.Sprintf("%s|%s|%d", n, u, fi)] = hx.Pick(r, []float64{0, 0, 1536, 3221225472, 2.5e-7, 1000, 5e6, 1, -1536, 7e10})
+				}
+			}
+		}
+	}
 	// "counts" mode: every file was produced with its own -count (6..25), so the cells of one
 	// table have different sample sizes
 	countsMode := bigWanted || r.Chance(1, 4)
@@ -301,6 +318,9 @@ func genCase(r *hx.Rand, big bool) *Case {
 							continue
 						}
 						v := mag[n+"|"+u] * shift * hx.Pick(r, noisePool)
+						if scalesMode {
+							v = scaleMag[fmt.Sprintf("%s|%s|%d", n, u, fi)]
+						}
 						if exactUnit == u && r.Chance(4, 5) {
 							v = mag[n+"|"+u] * shift
 						}
@@ -365,6 +385,20 @@ func genCase(r *hx.Rand, big bool) *Case {
 	if r.Chance(1, 20) {
 		c.Args = append(c.Args, "L="+c.Files[0].Name)
 		c.tag("duplabel")
+	}
+	if r.Chance(1, 12) {
+		// the same path twice or thrice, possibly next to a labelled use of it
+		f := c.Files[r.Intn(len(c.Files))].Name
+		switch r.Intn(3) {
+		case 0:
+			c.Args = []string{f, f}
+		case 1:
+			c.Args = []string{f, f, f}
+		default:
+			c.Args = []string{f, "new=" + f, f}
+		}
+		c.Stdin = ""
+		c.tag("samepath")
 	}
 	// flags
 	if cfgOnlyMode {
@@ -495,6 +529,17 @@ func corpusCases() []*Case {
 			"\ngoos: darwin\n\n"+rep("BenchmarkA 1 14 ns/op", 3)+"\ngoarch: arm64\n\n"+rep("BenchmarkA 1 16 ns/op", 3)),
 		mk([]string{"-table", ".file", "-row", ".config"}, rep("BenchmarkA 1 10 ns/op", 3)+"\ngoos: linux\n\n"+rep("BenchmarkA 1 12 ns/op", 3)+
 			"\ngoos: darwin\ngoarch: arm64\n\n"+rep("BenchmarkA 1 14 ns/op", 3)+"\ngoos: aix\n\n"+rep("BenchmarkA 1 16 ns/op", 3)+"\ngoos: zos\n\n"+rep("BenchmarkA 1 18 ns/op", 3)),
+		// the same path twice and thrice, and a labelled + unlabelled mix
+		func() *Case { c := mk(nil, rep("BenchmarkA 1 10 ns/op", 6)); c.Args = []string{"a.txt", "a.txt"}; return c }(),
+		func() *Case { c := mk(nil, rep("BenchmarkA 1 10 ns/op", 6)); c.Args = []string{"a.txt", "a.txt", "a.txt"}; return c }(),
+		func() *Case { c := mk(nil, rep("BenchmarkA 1 10 ns/op", 6)); c.Args = []string{"a.txt", "x=a.txt", "a.txt"}; return c }(),
+		// unequal sample sizes: 10 baseline runs vs 6 faster and 7 slower runs
+		mk(nil, "BenchmarkA 1 100 ns/op\nBenchmarkA 1 101 ns/op\nBenchmarkA 1 102 ns/op\nBenchmarkA 1 103 ns/op\nBenchmarkA 1 104 ns/op\nBenchmarkA 1 105 ns/op\nBenchmarkA 1 106 ns/op\nBenchmarkA 1 107 ns/op\nBenchmarkA 1 108 ns/op\nBenchmarkA 1 109 ns/op\n",
+			"BenchmarkA 1 50 ns/op\nBenchmarkA 1 51 ns/op\nBenchmarkA 1 52 ns/op\nBenchmarkA 1 53 ns/op\nBenchmarkA 1 54 ns/op\nBenchmarkA 1 55 ns/op\n",
+			"BenchmarkA 1 150 ns/op\nBenchmarkA 1 151 ns/op\nBenchmarkA 1 152 ns/op\nBenchmarkA 1 153 ns/op\nBenchmarkA 1 154 ns/op\nBenchmarkA 1 155 ns/op\nBenchmarkA 1 156 ns/op\n"),
+		// a row with a zero and two magnitudes of different prefixes: the row scale is that of the smallest non-zero
+		mk(nil, "BenchmarkA 1 0 B/op\nBenchmarkB 1 3221225472 B/op\n", "BenchmarkA 1 1536 B/op\nBenchmarkB 1 0 B/op\n", "BenchmarkA 1 3221225472 B/op\nBenchmarkB 1 1536 B/op\n"),
+		mk(nil, "BenchmarkA 1 -1536 B/op\n", "BenchmarkA 1 2 B/op\n", "BenchmarkA 1 3221225472 B/op\n"),
 		// exact assumption
 		mk([]string{"-col", "note"}, "Unit text-bytes assume=exact\nnote: before\n\nBenchmarkSize 1 100 text-bytes\nBenchmarkN 1 100 text-bytes\nBenchmarkN 1 101 text-bytes\n\nnote: after\n\nBenchmarkSize 1 105 text-bytes\nBenchmarkN 1 101 text-bytes\n"),
 	}
